@@ -182,7 +182,8 @@ impl Shared {
             Shared::HV(c) => c.with_label_values(&[TUPLES[t]]).observe(hv),
         }
     }
-    /// value per tuple ("" for scalar kinds); histograms: (sum, count)
+    /// value per tuple ("" for scalar kinds); histograms: (sum, count); a histogram whose only bucket
+    /// (le=1e300) does not hold every observation is reported with count u64::MAX
     fn read(&self) -> BTreeMap<String, (f64, u64)> {
         let mfs = match self {
             Shared::C(c) => c.collect(),
@@ -197,7 +198,7 @@ impl Shared {
             let key = m.labels.iter().find(|(k, _)| k == "l").map(|(_, v)| v.clone()).unwrap_or_default();
             let v = match (&m.counter, &m.hist) {
                 (Some(c), _) => (*c, 0),
-                (_, Some(h)) => (h.sum, h.count),
+                (_, Some(h)) => (h.sum, if h.buckets.iter().all(|b| b.1 == h.count) { h.count } else { u64::MAX }),
                 _ => (f64::NAN, 0),
             };
             out.insert(key, v);
